@@ -673,6 +673,17 @@ def csp_shape(v, info, s):
                 return True
             return "Alt must be disjunction(left, right) when both are Some and Arbitrary otherwise"
         return "unexpected if-let"
+    if s[0] == "match" and v == "Alt":
+        # `match (csp(left), csp(right)) { (Some(x), Some(y)) => Some(disjunction(x, y)), _ => arbitrary }` — the if-let written as a match
+        scrut, arms_ = s[1], s[2]
+        recs = scrut == ("tuple", [("rec", "0"), ("rec", "1")])
+        if recs and len(arms_) == 2:
+            (p0, g0, b0), (p1, g1, b1) = arms_
+            both = p0[0] == "tuple" and len(p0[1]) == 2 and all(pp[0] == "Some" for pp in p0[1]) and g0 is None
+            disj = b0[0] == "some" and b0[1][0] == "call" and b0[1][1].endswith("AbstractStartPredicate::disjunction")
+            if both and disj and p1 == ("_",) and g1 is None and is_arb(b1):
+                return True
+        return "Alt must be disjunction(left, right) when both are Some and Arbitrary otherwise"
     if s[0] == "try" or has_try(s):
         return "propagates a child's None with `?`: an alternation/sequence with a zero-width branch would be treated as zero-width"
     if s[0] == "some":
